@@ -56,7 +56,7 @@ VALS = [0.0, 1.0, -1.0, 0.5, -0.25, 2.0, 1.3, -0.7]
 
 
 def cases(rng, tier):
-    n = {'quick': 220, 'thorough': 2000, 'search': 220}[tier]
+    n = {'quick': 400, 'thorough': 2000, 'search': 220}[tier]
     out = []
     for k in range(n):
         model = rng.choice(['ising', 'xxz', 'xxz1', 'bose', 'fermi', 'linferm'])
@@ -77,7 +77,7 @@ def cases(rng, tier):
             c['twice'] = True
         out.append(c)
     # correspondence-only cases (no dense reference): every model for L in 1..7, parameters with zeros / ones / sign changes
-    m = {'quick': 140, 'thorough': 700, 'search': 0}[tier]
+    m = {'quick': 240, 'thorough': 700, 'search': 0}[tier]
     for k in range(m):
         model = ['ising', 'xxz', 'xxz1', 'bose', 'fermi', 'linferm'][k % 6]
         p = [rng.choice(VALS[:6]) if rng.random() < 0.85 else rng.randint(-16, 16) / 8.0 for _ in range(3)]
